@@ -8,6 +8,7 @@ import QEModel.C17
 import QEProofs.Lemmas.C17Basic
 import QEProofs.Lemmas.C17Open
 import QEProofs.Lemmas.C17Bracket
+import QEProofs.Lemmas.C17Total
 import QEProofs.Lemmas.C17BrentMax
 import QEProofs.Lemmas.C17BrentBox
 import QEProofs.Lemmas.C17NM
@@ -247,6 +248,102 @@ example : (match bisect (fun x : Rat => x * x - 2) 0 2 (1 / 100) 0 3 false with
 example : (match bisect (fun x : Rat => x * x + 2) 0 2 (1 / 100) 0 100 true with
     | .valueError => true | _ => false) = true := by decide +kernel
 
+/-! ## bisect : termination and total correctness -/
+
+/-- with valid parameters and a bracket without end-point zeros, `bisect` is the loop -/
+theorem bisect_unfold (f : K → K) (a b xtol rtol : K) (maxiter : Int) (disp : Bool)
+    (hx : 0 < xtol) (hmi : 1 ≤ maxiter) (ha : f a ≠ 0) (hb : f b ≠ 0) (hs : f a * f b ≤ 0) :
+    bisect f a b xtol rtol maxiter disp
+      = finish disp (bisectLoop f xtol rtol (f a) maxiter.toNat 0 a (b - a) 2) := by
+  unfold bisect
+  rw [if_neg (not_le.mpr hx), if_neg (by omega)]
+  simp only [not_lt.mpr hs, if_false]
+  unfold bisectInterval
+  simp [ha, hb]
+
+/-- **the iteration bound `bisectK` is the least number of halvings.** `bisectK a b xtol cap = some k`
+    means `1 ≤ k ≤ cap`, `|b−a|/2^k < xtol` and no smaller `k ≥ 1` does. -/
+theorem bisectK_spec (a b xtol : K) (cap k : Nat) (h : bisectK a b xtol cap = some k) :
+    1 ≤ k ∧ k ≤ cap ∧ |(b - a) * (1 / 2) ^ k| < xtol ∧
+    ∀ i, 1 ≤ i → i < k → ¬ |(b - a) * (1 / 2) ^ i| < xtol := by
+  obtain ⟨j, j1, j2, j3, j4, j5⟩ := halvingsAux_some xtol cap (b - a) 0 k h
+  have : k = j := by omega
+  subst this
+  exact ⟨j1, j2, j4, j5⟩
+
+/-- **bisect terminates** (every `f`, `rtol ≥ 0`): if `k = bisectK a b xtol cap` halvings bring the
+    width below `xtol` and `maxiter ≥ k`, the call returns — with `disp` either way —
+    `converged = True` after at most `k` passes, and the returned point is an exact zero or the
+    mid-point of a strict sign change of half-width `< xtol + rtol·|root|`. -/
+theorem bisect_terminates (f : K → K) (a b xtol rtol : K) (maxiter : Int) (cap k : Nat)
+    (hx : 0 < xtol) (hr : 0 ≤ rtol) (ha : f a ≠ 0) (hb : f b ≠ 0) (hs : f a * f b ≤ 0)
+    (hk : bisectK a b xtol cap = some k) (hkm : (k : Int) ≤ maxiter) :
+    ∃ r, (∀ disp, bisect f a b xtol rtol maxiter disp = .ok r) ∧ r.conv = true ∧
+      1 ≤ r.iters ∧ r.iters ≤ k ∧ r.calls = r.iters + 2 ∧
+      (f r.root = 0 ∨ ∃ d, |d| < xtol + rtol * |r.root| ∧ f (r.root - d) * f (r.root + d) < 0) := by
+  obtain ⟨k1, _, kw, _⟩ := bisectK_spec a b xtol cap k hk
+  have hmi : 1 ≤ maxiter := by omega
+  have hterm := bisectLoop_terminates f xtol rtol (f a) hr k maxiter.toNat 0 a (b - a) 2 k1 (by omega) kw
+  obtain ⟨r, hr0, hconv, _, _, htrue⟩ := bisect_bracket f a b xtol rtol maxiter hx hmi ha hb hs
+  have hun := bisect_unfold f a b xtol rtol maxiter false hx hmi ha hb hs
+  rw [hun, (finish_contract _).1] at hr0
+  have hrl : bisectLoop f xtol rtol (f a) maxiter.toNat 0 a (b - a) 2 = r := by
+    injection hr0
+  rw [hrl] at hterm
+  obtain ⟨c1, _, c3, _, c5⟩ := hconv hterm.1
+  refine ⟨r, fun disp => ?_, hterm.1, c3, by have := hterm.2; omega, c5, c1⟩
+  cases disp with
+  | false => rw [hun, hrl]; exact (finish_contract r).1
+  | true => exact htrue hterm.1
+
+/-- **bisect, total correctness** over an Archimedean ordered field: for EVERY `f` (no continuity)
+    with `f a · f b ≤ 0`, every `xtol > 0` and `rtol ≥ 0` there is a bound `K0 ≥ 1` — the least number of
+    halvings with `|b−a|/2^K0 < xtol`, computed by `bisectK` for every cap `≥ K0` — such that every
+    call with `maxiter ≥ K0` returns (no exception, `disp` either way) `converged = True` after at
+    most `K0` passes at a point that is an exact zero of `f` or within `xtol + rtol·|root|` of a
+    strict sign change. -/
+theorem bisect_total_correct [Archimedean K] (f : K → K) (a b xtol rtol : K)
+    (hx : 0 < xtol) (hr : 0 ≤ rtol) (hs : f a * f b ≤ 0) :
+    ∃ K0 : Nat, 1 ≤ K0 ∧ (∀ cap, K0 ≤ cap → bisectK a b xtol cap = some K0) ∧
+      ∀ (maxiter : Int) (disp : Bool), (K0 : Int) ≤ maxiter →
+        ∃ r, bisect f a b xtol rtol maxiter disp = .ok r ∧ r.conv = true ∧ r.iters ≤ K0 ∧
+          (f r.root = 0 ∨ ∃ d, |d| < xtol + rtol * |r.root| ∧ f (r.root - d) * f (r.root + d) < 0) := by
+  obtain ⟨j, j1, jw⟩ := exists_halvings (b - a) xtol hx
+  obtain ⟨k, hk, _⟩ := halvingsAux_complete xtol j (b - a) 0 j j1 (le_refl _) jw
+  have hspec := bisectK_spec a b xtol j k hk
+  obtain ⟨k1, _, kw, kleast⟩ := hspec
+  have hcap : ∀ cap, k ≤ cap → bisectK a b xtol cap = some k := by
+    intro cap hc
+    obtain ⟨r2, h2, h2le⟩ := halvingsAux_complete xtol cap (b - a) 0 k k1 hc kw
+    have s2 := bisectK_spec a b xtol cap r2 h2
+    have : r2 = k := by
+      by_contra hne
+      have hlt : r2 < k := by omega
+      exact kleast r2 s2.1 hlt s2.2.2.1
+    unfold bisectK; rw [h2, this]
+  refine ⟨k, k1, hcap, fun maxiter disp hm => ?_⟩
+  have hmi : 1 ≤ maxiter := by omega
+  by_cases h0 : f a = 0 ∨ f b = 0
+  · refine ⟨_, bisect_endpoint f a b xtol rtol maxiter disp hx hmi h0, rfl, by simp, Or.inl ?_⟩
+    simp only
+    by_cases hb : f b = 0
+    · rw [if_pos hb]; exact hb
+    · rw [if_neg hb]; rcases h0 with h | h
+      · exact h
+      · exact absurd h hb
+  · rw [not_or] at h0
+    obtain ⟨r, hall, hc, _, hi, _, hroot⟩ :=
+      bisect_terminates f a b xtol rtol maxiter k k hx hr h0.1 h0.2 hs (hcap k (le_refl _)) hm
+    exact ⟨r, hall disp, hc, hi, hroot⟩
+
+/-- non-vacuity: `[0, 2]`, `xtol = 1/100`: 8 halvings (2/2^8 = 1/128 < 1/100 ≤ 2/2^7), the bound is
+    attained by `x² − 2`, and 7 passes are not enough -/
+example : bisectK (0 : Rat) 2 (1 / 100) 100 = some 8 := by decide +kernel
+example : (match bisect (fun x : Rat => x * x - 2) 0 2 (1 / 100) 0 8 true with
+    | .ok r => r.conv && r.iters == 8 | _ => false) = true := by decide +kernel
+example : (match bisect (fun x : Rat => x * x - 2) 0 2 (1 / 100) 0 7 false with
+    | .ok r => !r.conv | _ => false) = true := by decide +kernel
+
 /-! ## brentq -/
 
 theorem brentq_valueError_iff (f : K → K) (a b xtol rtol : K) (maxiter : Int) (disp : Bool) :
@@ -318,6 +415,19 @@ theorem brentq_bracket (f : K → K) (a b xtol rtol : K) (maxiter : Int)
     exact ⟨by omega, b2, by omega⟩
   · intro hc; rw [hun]; exact hf.2.1 hc
   · intro hc; rw [hun]; exact hf.2.2 hc
+
+/-- **brentq, progress of one pass** (what the step-acceptance rule of the code guarantees; Brent's
+    iteration bound itself is NOT proved). In a pass that does not exit, with
+    `delta = (xtol + rtol·|xcur|)/2 > 0` and `sbis = (xblk − xcur)/2`, the next evaluation point
+    `xnew` (accepted interpolation / extrapolation step, bisection step or minimal step `±delta`)
+    satisfies `delta ≤ |xnew − xcur| ≤ 3/4·|xblk − xcur|`: two successive evaluation points are never
+    closer than `delta`, and never further apart than three quarters of the current bracket. -/
+theorem brentq_step_bounds (s : BQ K) (delta : K) (hd : 0 < delta)
+    (hne : ¬ |(s.xblk - s.xcur) / 2| < delta) :
+    delta ≤ |bqNext s.xcur (bqTry s delta ((s.xblk - s.xcur) / two)).2 delta ((s.xblk - s.xcur) / two) - s.xcur| ∧
+    |bqNext s.xcur (bqTry s delta ((s.xblk - s.xcur) / two)).2 delta ((s.xblk - s.xcur) / two) - s.xcur|
+      ≤ 3 / 4 * |s.xblk - s.xcur| :=
+  bqStep_bounds s delta hd hne
 
 example : (match brentq (fun x : Rat => x * x - 2) 0 2 (1 / 100) 0 100 true with
     | .ok r => r.conv && r.iters == 5 && r.calls == 6 && r.root == 5939 / 4200 | _ => false) = true := by
